@@ -325,11 +325,12 @@ def gen_ext_payload(rng, t):
     return bytes(e.extData)
 
 
-def gen_ext_block(rng, types, count):
+def gen_ext_block(rng, types, count, distinct=False):
     from tlslite.extensions import TLSExtension
     out = b''
-    for _ in range(count):
-        t = rng.choice(types)
+    pick = rng.sample(sorted(set(types)), min(count, len(set(types)))) if distinct else None
+    for i in range(len(pick) if distinct else count):
+        t = pick[i] if distinct else rng.choice(types)
         pl = gen_ext_payload(rng, t)
         out += bytes(TLSExtension(extType=t).create(t, bytearray(pl)).write())
     return out
@@ -433,7 +434,8 @@ def gen_compressed(rng, pool, unk):
     comp = zlib.compress(inner)
     expected = len(inner)
     algo = 1
-    v = rng.choice(['ok', 'ok', 'exp+1', 'exp-1', 'exp0', 'expbig', 'corrupt', 'empty', 'algo', 'raw'])
+    v = rng.choice(['ok', 'ok', 'exp+1', 'exp-1', 'exp0', 'expbig', 'corrupt', 'empty', 'algo', 'raw',
+                    'trailing', 'cut', 'bomb'])
     if v == 'exp+1':
         expected += 1
     elif v == 'exp-1':
@@ -452,6 +454,13 @@ def gen_compressed(rng, pool, unk):
         algo = rng.choice([0, 4, 7, 65535])
     elif v == 'raw':
         comp = rbytes(rng, 12)
+    elif v == 'trailing':                             # unused_data after the end of the stream
+        comp += rbytes(rng, rng.choice([1, 4]))
+    elif v == 'cut':                                  # stream not finished (not eof)
+        comp = comp[:len(comp) - rng.choice([1, 2, 5])]
+    elif v == 'bomb':                                 # much more output than declared
+        comp = zlib.compress(b'\x00' * 100000)
+        expected = rng.choice([0, 10, 500])
     body = _w(algo, 2) + _w(expected, 3) + _w(len(comp), 3) + comp
     return _w(len(body), 3) + body
 
@@ -469,11 +478,19 @@ def gen_case(rng, kind, pool, unk):
         else:
             data = gen_ext_block(rng, unk, rng.choice([1, 2, 5, 12]))
     elif kind == 'ch_exts':
-        style = rng.choice(['mix', 'mix', 'mix', 'tinyknown'])
-        if style == 'tinyknown':
+        style = rng.choice(['mix', 'mix', 'mix', 'tinyknown', 'dup'])
+        if style == 'dup':
+            # every extension well-formed, one type repeated: reaches the duplicate test after the loop
+            types = rng.sample(sorted(set(list(MODELLED_CH) + unk[:12])), rng.choice([1, 2, 5, 9]))
+            types.insert(rng.randrange(len(types) + 1), rng.choice(types))
+            data = b''.join(gen_ext_block(rng, [t], 1) for t in types)
+            params = ['nomut']
+        elif style == 'tinyknown':
             data = b''.join(_w(rng.choice(MODELLED_CH), 2) + b'\x00\x00' for _ in range(rng.choice([1, 30, 300])))
         else:
-            data = gen_ext_block(rng, list(MODELLED_CH) * 2 + unk[:6], rng.choice([1, 2, 4, 8, 16]))
+            # ClientHello.parse rejects duplicate extension types after the loop: both populations
+            data = gen_ext_block(rng, list(MODELLED_CH) * 2 + unk[:12], rng.choice([1, 2, 4, 8, 16]),
+                                 distinct=rng.random() < 0.6)
     elif kind in ('sni', 'alpn', 'npn', 'key_shares', 'psk', 'status_request'):
         t = {'sni': 0, 'alpn': 16, 'npn': 13172, 'key_shares': 51, 'psk': 41, 'status_request': 5}[kind]
         style = rng.choice(['honest', 'honest', 'honest', 'tiny'])
@@ -542,7 +559,9 @@ def gen_case(rng, kind, pool, unk):
         data = gen_compressed(rng, pool, unk)
     else:
         raise KeyError(kind)
-    if kind in ('var_list', 'var_tuple_list', 'fix_list', 'defrag_static'):
+    if params == ['nomut']:
+        params, cls = [], 'dup'
+    elif kind in ('var_list', 'var_tuple_list', 'fix_list', 'defrag_static'):
         cls, data = mutate(rng, data) if rng.random() < 0.6 else ('none', data)
     elif kind == 'compressed_cert':
         cls, data = mutate(rng, data) if rng.random() < 0.25 else ('none', data)
@@ -562,8 +581,12 @@ def x509_outcome(c):
 
 
 def zlib_outcome(data, lim):
+    """the decompressor oracle as the code calls it (messages.py _decompress, zlib path):
+    -> (output, stopped cleanly) or None when zlib raises"""
     try:
-        return bytes(zlib.decompress(bytes(data), 15, lim))
+        d = zlib.decompressobj(15)
+        out = bytes(d.decompress(bytes(data), lim))
+        return out, not (d.unconsumed_tail or not d.eof or d.unused_data)
     except Exception:  # noqa
         return None
 
@@ -592,11 +615,11 @@ def run_impl(case):
             exp = int.from_bytes(bs[5:8], 'big')
             ln = int.from_bytes(bs[8:11], 'big')
             comp = bs[11:11 + ln]
-            if exp <= 5000:
-                tbl.append((comp, exp, zlib_outcome(comp, exp)))
-            else:
-                out = zlib_outcome(comp, exp)
-                tbl.append((comp, exp, out if out is None or len(out) <= 5000 else None))
+            o = zlib_outcome(comp, exp + 1)
+            if o is not None and len(o[0]) > 5000:    # keep the literal small: an unrecorded query
+                o = 'skip'                            # makes the model disagree, never silently agree
+            if o != 'skip':
+                tbl.append((comp, exp + 1, o))
         case['dec'] = tbl
     return True
 
@@ -607,7 +630,8 @@ def summ_lit(s):
 
 def case_lit(c):
     certs = '[' + ';'.join('(%s,%d)' % (blit(b), code) for b, code in c.get('certs', [])) + ']'
-    dec = '[' + ';'.join('(%s,%d,%s)' % (blit(d), lim, 'None' if o is None else '(Some %s)' % blit(o))
+    dec = '[' + ';'.join('(%s,%d,%s)' % (blit(d), lim, 'None' if o is None else
+                                         '(Some (%s,%s))' % (blit(o[0]), vlib.boollit(o[1])))
                          for d, lim, o in c.get('dec', [])) + ']'
     return '(%d, %s, %s, %s, %d, %s, %d, %s, %s)' % (
         KID[c['kind']], '[' + ';'.join(zlit(p) for p in c['params']) + ']', blit(c['input']),
@@ -616,7 +640,7 @@ def case_lit(c):
 
 PREAMBLE = '''
 Definition CaseT := (Z * list Z * list Z * bool * Z * summ * Z * list (list Z * Z)
-                     * list (list Z * Z * option (list Z)))%%type.
+                     * list (list Z * Z * option (list Z * bool)))%%type.
 Definition exn_of_code (c : Z) : exn :=
   if c =? 1 then IndexError else if c =? 2 then ValueError else if c =? 3 then AssertionError
   else if c =? 4 then AttributeError else if c =? 5 then TypeError else if c =? 6 then KeyError
@@ -627,9 +651,10 @@ Fixpoint cert_tbl (t : list (list Z * Z)) (c : list Z) : option exn :=
   | (k, code) :: t' => if list_eqb k c then (if code =? 0 then None else Some (exn_of_code code))
                        else cert_tbl t' c
   end.
-Fixpoint dec_tbl (t : list (list Z * Z * option (list Z))) (d : list Z) (lim : Z) : res (list Z) :=
+Fixpoint dec_tbl (t : list (list Z * Z * option (list Z * bool))) (d : list Z) (lim : Z)
+  : res (list Z * bool) :=
   match t with
-  | [] => Ok [(-1)]
+  | [] => Ok ([(-1)], true)
   | (k, l, o) :: t' => if list_eqb k d && (l =? lim)
                        then match o with Some x => Ok x | None => Err ValueError end
                        else dec_tbl t' d lim
@@ -646,7 +671,7 @@ Definition of_defrag (r : res (list (list Z) * list Z * Z * Z * Z)) : M summ :=
   | Err e => (Err e, 0, 0)
   end.
 Definition run_model (kind : Z) (ps : list Z) (certs : list (list Z * Z))
-           (dec : list (list Z * Z * option (list Z))) (bs : list Z) : M summ :=
+           (dec : list (list Z * Z * option (list Z * bool))) (bs : list Z) : M summ :=
   if kind =? 0 then parse_ext_list bs
   else if kind =? 1 then mmap summ_flat (parse_client_hello_exts bs)
   else if kind =? 2 then mmap summ_opt (parse_sni bs)
@@ -686,7 +711,7 @@ Definition chk_work_m (c : CaseT) (m : M summ) : bool :=
 (* the proved bounds (Proofs/C08_Work.v parser_work_linear_all / alloc_bounded_all / defrag_bound_stmt /
    asn1_all_children_quadratic), re-evaluated on the concrete case: guards the reading of the statements *)
 Definition proved (kind : Z) (ps : list Z) : Z * Z * Z * Z :=
-  if kind =? 0 then (1, 4, 2, 1) else if kind =? 1 then (7, 13, 4, 3)
+  if kind =? 0 then (1, 4, 2, 1) else if kind =? 1 then (8, 13, 5, 3)
   else if kind =? 2 then (2, 5, 2, 1) else if kind =? 3 then (3, 4, 2, 1)
   else if kind =? 4 then (3, 3, 2, 1) else if kind =? 5 then (1, 5, 2, 1)
   else if kind =? 6 then (3, 9, 2, 2) else if kind =? 7 then (2, 7, 2, 1)
@@ -746,7 +771,39 @@ def scaling_inputs(n):
     return probes
 
 
+def bomb_probe(ctx):
+    """Direct measurement of the decompressor contract on the real call: a zlib bomb with a small
+    declared length must be rejected without materialising its output."""
+    import tracemalloc
+    from tlslite.messages import CompressedCertificate
+    from tlslite.constants import CertificateType
+    from tlslite.utils.codec import Parser
+    comp = zlib.compress(b'\x00' * (16 * 1024 * 1024), 9)
+    body = _w(1, 2) + _w(10, 3) + _w(len(comp), 3) + comp
+    msg = bytearray(_w(len(body), 3) + body)
+    tracemalloc.start()
+    try:
+        try:
+            CompressedCertificate(CertificateType.x509, (3, 4)).parse(Parser(msg))
+            res = 'ok'
+        except Exception as e:  # noqa
+            res = type(e).__name__
+        peak = tracemalloc.get_traced_memory()[1]
+    finally:
+        tracemalloc.stop()
+    ctx.count('zlib-bomb(python)', 1, [(res,)])
+    ctx.notes.append('zlib bomb: %d input bytes (16 MiB declared as 10) -> %s, peak traced memory %d' % (len(msg), res, peak))
+    if peak > 8 * len(msg) + (1 << 20) or res != 'BadCertificateError':
+        ctx.violation('alloc-unbounded:compressed_certificate_zlib',
+                      'CompressedCertificate.parse of %d bytes (zlib stream of 16 MiB zeros, expected_length 10) '
+                      'ended in %s with peak traced memory %d bytes' % (len(msg), res, peak),
+                      {'how': 'body = 0001 | 00000a | len3 | zlib.compress(bytes(2**24), 9); '
+                              'CompressedCertificate(x509,(3,4)).parse(Parser(len3 + body))',
+                       'input_len': len(msg), 'peak': peak, 'result': res}, found_input=True)
+
+
 def scaling_stage(ctx, quick):
+    bomb_probe(ctx)
     sizes = [2048, 4096, 8192] if quick else [4096, 8192, 16384, 32768, 65536]
     for name in sorted(scaling_inputs(64)):
         prev = None
